@@ -7,6 +7,7 @@ import (
 	"fmt"
 	"net/url"
 	"path"
+	"sort"
 
 	"github.com/benoitkugler/webrender/logger"
 	mt "github.com/benoitkugler/webrender/matrix"
@@ -322,6 +323,8 @@ func (d *Document) resolveLinks() ([][]Link, [][]backend.Anchor) {
 				anchors.Add(anchorName)
 			}
 		}
+		// page.anchors is a map: make the order of the anchors reproducible
+		sort.Slice(current, func(a, b int) bool { return current[a].Name < current[b].Name })
 		pagedAnchors[i] = current
 	}
 	pagedLinks := make([][]Link, len(d.Pages))
